@@ -49,7 +49,11 @@ func u32(v uint32) []byte { b := make([]byte, 4); binary.LittleEndian.PutUint32(
 
 func myPreimageH(tx *caseTx, idx int, code []byte, amount uint64, ht byte, fork bool) ([]byte, [][2][]byte) {
 	var hs [][2][]byte
-	h := func(b []byte) []byte { o := sha256d(b); hs = append(hs, [2][]byte{append([]byte{}, b...), o}); return o }
+	h := func(b []byte) []byte {
+		o := sha256d(b)
+		hs = append(hs, [2][]byte{append([]byte{}, b...), o})
+		return o
+	}
 	base := ht & 0x1f
 	acp := ht&0x80 != 0
 	if fork {
@@ -192,11 +196,12 @@ func hsOf(tx *caseTx, idx int, code []byte, amount uint64, ht byte, fork bool) [
 type scen struct {
 	carrySats   *uint64 // set by the commit scenarios: what the signed tx object carries
 	carryScript []byte
-	rng   *rand.Rand
-	keys  []keyPair
-	notes []sigNote
-	knote []Ev
-	seenK map[string]bool
+	frameBroken bool // library signing changed something other than unlocking scripts
+	rng         *rand.Rand
+	keys        []keyPair
+	notes       []sigNote
+	knote       []Ev
+	seenK       map[string]bool
 }
 
 func (s *scen) keyBytes(k keyPair, form string) []byte {
@@ -341,7 +346,7 @@ func sigsCmd(args []string) error {
 		for _, o := range tx.Outs {
 			outs = append(outs, Ev{"sats": le64(o.Sats), "ls": o.Script})
 		}
-		sx := Ev{"tx": Ev{"ver": le32(tx.Ver), "ins": ins, "outs": outs, "lt": le32(tx.Lt)}, "idx": idx, "sigs": s.notes, "keys": s.knote}
+		sx := Ev{"tx": Ev{"ver": le32(tx.Ver), "ins": ins, "outs": outs, "lt": le32(tx.Lt)}, "idx": idx, "sigs": s.notes, "keys": s.knote, "frame": !s.frameBroken}
 		if s.notes == nil {
 			sx["sigs"] = []sigNote{}
 		}
@@ -555,6 +560,27 @@ func commitScenarios(s *scen, rng *rand.Rand, n int, emit func(id, src string, u
 		real.Inputs[idx].UnlockingScript = nil
 		real.Inputs[idx].PreviousTxScript = lock
 		real.Inputs[idx].PreviousTxSatoshis = amount
+		// the transaction as built, to compare with after signing: signing may only fill in
+		// unlocking scripts
+		built := tx.build(idx, bscript.NewFromBytes([]byte{}))
+		s.frameBroken = false
+		if nin > 1 && rng.Intn(2) == 0 {
+			// the other inputs are signed through the library too (same family of hash types), before or after
+			for j := 0; j < nin; j++ {
+				real.Inputs[j].PreviousTxScript = lock
+				real.Inputs[j].PreviousTxSatoshis = amount
+			}
+			for j := 0; j < nin; j++ {
+				if j == idx {
+					continue
+				}
+				hj := legacyTypes[rng.Intn(6)]
+				if fork {
+					hj = forkTypes[rng.Intn(6)]
+				}
+				_ = real.FillInput(context.Background(), &unlocker.Simple{PrivateKey: k.priv}, bt.UnlockerParams{InputIdx: uint32(j), SigHashFlags: sighash.Flag(hj)})
+			}
+		}
 		var err error
 		if rng.Intn(2) == 0 && ht == 0x41 && nin == 1 {
 			err = real.FillAllInputs(context.Background(), &unlocker.Getter{PrivateKey: k.priv})
@@ -567,6 +593,7 @@ func commitScenarios(s *scen, rng *rand.Rand, n int, emit func(id, src string, u
 			continue
 		}
 		unlock := []byte(*real.Inputs[idx].UnlockingScript)
+		s.frameBroken = !sameButUnlocking(real, built)
 		parts, perr := bscript.DecodeParts(unlock)
 		if perr != nil || len(parts) != 2 {
 			continue
@@ -673,7 +700,10 @@ func commitScenarios(s *scen, rng *rand.Rand, n int, emit func(id, src string, u
 				return true
 			}},
 			{"spent-value", func(t *caseTx, i *int, a *uint64, l *[]byte) bool { *a++; return true }},
-			{"spent-script", func(t *caseTx, i *int, a *uint64, l *[]byte) bool { *l = append(append([]byte{}, *l...), 0x61); return true }},
+			{"spent-script", func(t *caseTx, i *int, a *uint64, l *[]byte) bool {
+				*l = append(append([]byte{}, *l...), 0x61)
+				return true
+			}},
 		}
 		for _, m := range muts {
 			if rng.Intn(3) != 0 && n > 50 {
@@ -688,4 +718,24 @@ func commitScenarios(s *scen, rng *rand.Rand, n int, emit func(id, src string, u
 		}
 	}
 	return nil
+}
+
+// sameButUnlocking: a and b agree on everything a signature can commit to except unlocking scripts.
+func sameButUnlocking(a, b *bt.Tx) bool {
+	if a.Version != b.Version || a.LockTime != b.LockTime || len(a.Inputs) != len(b.Inputs) || len(a.Outputs) != len(b.Outputs) {
+		return false
+	}
+	for i := range a.Inputs {
+		x, y := a.Inputs[i], b.Inputs[i]
+		if !bytes.Equal(x.PreviousTxID(), y.PreviousTxID()) || x.PreviousTxOutIndex != y.PreviousTxOutIndex || x.SequenceNumber != y.SequenceNumber {
+			return false
+		}
+	}
+	for i := range a.Outputs {
+		x, y := a.Outputs[i], b.Outputs[i]
+		if x.Satoshis != y.Satoshis || !bytes.Equal(*x.LockingScript, *y.LockingScript) {
+			return false
+		}
+	}
+	return true
 }
